@@ -262,6 +262,13 @@ theorem hstep_ok_h2PeerEnd {closing : Bool} {cpc : ClosePc} {h h' : Handler}
   cases hpc : h.pc <;> simp [hstep, hpc, Pc.readable] at hs
   all_goals (first | (obtain ⟨hc, hs⟩ := hs; subst hs; hok_tac) | (subst hs; hok_tac))
 
+theorem hstep_ok_rtFail {closing : Bool} {cpc : ClosePc} {h h' : Handler}
+    (hg : cpc = .returned → closing = true) (ok : HOk closing cpc h)
+    (hs : hstep closing cpc.holdsMu (decide (cpc = .returned)) h (.rtFail) = some h') : HOk closing cpc h' := by
+  obtain ⟨e1, e2, e3, e4, e5, e6, e7, e8, e9, e9', e9'', e10, e11⟩ := ok
+  cases hpc : h.pc <;> simp [hstep, hpc, Pc.readable] at hs
+  all_goals (first | (obtain ⟨hc, hs⟩ := hs; subst hs; hok_tac) | (subst hs; hok_tac))
+
 theorem hstep_ok_cwriteEnd {closing : Bool} {cpc : ClosePc} {h h' : Handler}
     (hg : cpc = .returned → closing = true) (ok : HOk closing cpc h)
     (hs : hstep closing cpc.holdsMu (decide (cpc = .returned)) h (.cwriteEnd) = some h') : HOk closing cpc h' := by
@@ -321,6 +328,7 @@ theorem hstep_ok {closing : Bool} {cpc : ClosePc} {h h' : Handler} {l : HL}
   | handshakeEnd r => exact hstep_ok_handshakeEnd hg ok hs
   | h2Stop => exact hstep_ok_h2Stop hg ok hs
   | h2PeerEnd => exact hstep_ok_h2PeerEnd hg ok hs
+  | rtFail => exact hstep_ok_rtFail hg ok hs
 
 /-! ### facts about the control part of `hstep` -/
 
